@@ -173,6 +173,18 @@ def matKernel (h : Heap γ) (t : Nat) (ax : Axis) (g : γ → γ) : Heap γ :=
     else { h with mats := h.mats ++ [g (h.mat o.mat)],
                   objs := h.objs.set t { o with mat := h.mats.length, fmt := Fmt.ofAxis ax } }
 
+/-- a READ accessor that caches a format conversion on the table it reads: `_get_row` / `_get_col`
+(behind `data()`, `iter()`, `partition`, `collapse`, the general path of `merge`) do
+`self._data = self._data.tocsr()/tocsc()`.  The content is untouched; when the layout differs the
+table henceforth references a new buffer (the old one is not written). -/
+def relayout (h : Heap γ) (t : Nat) (ax : Axis) : Heap γ :=
+  match h.objs[t]? with
+  | none => h
+  | some o =>
+    if o.fmt = Fmt.ofAxis ax then h
+    else { h with mats := h.mats ++ [h.mat o.mat],
+                  objs := h.objs.set t { o with mat := h.mats.length, fmt := Fmt.ofAxis ax } }
+
 /-- a new ID array is installed -/
 def setIds (h : Heap γ) (t : Nat) (ax : Axis) (l : List Id) : Heap γ :=
   match h.objs[t]? with
@@ -244,6 +256,7 @@ inductive Micro (γ : Type) where
   | keepMd (t : Nat) (ax : Axis) (mask : List Bool)
   | addMd (t : Nat) (ax : Axis) (ups : List (Option (Md → Md)))
   | delMd (t : Nat) (ax : Axis) (d : Option (Md → Md))
+  | relayout (t : Nat) (ax : Axis)
 
 /-- the table an action modifies in place (`none`: it only allocates) -/
 def Micro.target : Micro γ → Option Nat
@@ -254,6 +267,12 @@ def Micro.target : Micro γ → Option Nat
   | .keepMd t .. => some t
   | .addMd t .. => some t
   | .delMd t .. => some t
+  | .relayout t _ => some t
+
+/-- actions that change the record of their target but never its content -/
+def Micro.quiet : Micro γ → Bool
+  | .relayout .. => true
+  | _ => false
 
 def step (h : Heap γ) : Micro γ → Heap γ
   | .allocIds l => { h with ids := h.ids ++ [l] }
@@ -263,6 +282,7 @@ def step (h : Heap γ) : Micro γ → Heap γ
   | .keepMd t ax mask => h.keepMd t ax mask
   | .addMd t ax ups => h.addMd t ax ups
   | .delMd t ax d => h.delMd t ax d
+  | .relayout t ax => h.relayout t ax
 
 def run (h : Heap γ) (ms : List (Micro γ)) : Heap γ := ms.foldl step h
 
@@ -284,6 +304,7 @@ def writes (h : Heap γ) : Micro γ → List Nat × List Nat
     match h.objs[t]?, d with
     | some o, some _ => ([], (o.md ax).getD [])
     | _, _ => ([], [])
+  | .relayout .. => ([], [])
 
 /-- the bodies of the operations that can run in place, on target table `t` -/
 inductive Body (γ : Type) where
@@ -326,6 +347,7 @@ def Micro.absStep : Micro γ → Content γ → Content γ
       match c.md ax with
       | none => c
       | some ms => if (ms.map f).all (·.isEmpty) then c.setMd ax none else c.setMd ax (some (ms.map f))
+  | .relayout .., c => c
 
 def absRun (ms : List (Micro γ)) (c : Content γ) : Content γ := ms.foldl (fun c m => m.absStep c) c
 
@@ -333,19 +355,23 @@ def absRun (ms : List (Micro γ)) (c : Content γ) : Content γ := ms.foldl (fun
 inductive Op (γ : Type) where
   | extIds (l : List Id)                                  -- the caller makes an ID array
   | inplace (recv : Nat) (bs : List (Body γ))             -- `table = self` ; bodies ; `return table`
-  | new (srcs : List Nat) (F : List (Content γ) → Content γ) (os ss : IdSrc) (post : List (Body γ))
+  /-- `pre`: read accessors that re-lay-out source tables while the arguments are computed;
+  then the constructor call; then in-place bodies on the new table -/
+  | new (pre : List (Nat × Axis)) (srcs : List Nat) (F : List (Content γ) → Content γ) (os ss : IdSrc)
+      (post : List (Body γ))
 
 def copyF : List (Content γ) → Content γ := fun cs => cs.headD
   { obs := [], samp := [], mat := default, omd := none, smd := none, ttype := none }
 
 /-- `table = self.copy()` ; bodies ; `return table` -/
-def Op.copyThen (recv : Nat) (bs : List (Body γ)) : Op γ := .new [recv] copyF .fresh .fresh bs
+def Op.copyThen (recv : Nat) (bs : List (Body γ)) : Op γ := .new [] [recv] copyF .fresh .fresh bs
 
 /-- micro-steps of an operation when `n` tables exist -/
 def Op.micro (n : Nat) : Op γ → List (Micro γ)
   | .extIds l => [.allocIds l]
   | .inplace r bs => bodiesMicro r bs
-  | .new srcs F os ss post => .construct srcs F os ss :: bodiesMicro n post
+  | .new pre srcs F os ss post =>
+    pre.map (fun p => Micro.relayout p.1 p.2) ++ .construct srcs F os ss :: bodiesMicro n post
 
 /-- index of the returned table -/
 def Op.result (n : Nat) : Op γ → Option Nat
@@ -362,30 +388,34 @@ def runOps (h : Heap γ) (ops : List (Op γ)) : Heap γ := ops.foldl stepOp h
 def Op.copy (r : Nat) : Op γ := .copyThen r []
 /-- `self.__class__(self._data.transpose(copy=True), self.ids()[:], self.ids('observation')[:], ..)` -/
 def Op.transpose (r : Nat) (F : List (Content γ) → Content γ) : Op γ :=
-  .new [r] F (.ofTable r .samp) (.ofTable r .obs) []
+  .new [] [r] F (.ofTable r .samp) (.ofTable r .obs) []
 /-- `sort_order`: the other axis is `self.ids(..)[:]` (a view); the sorted axis is `order[:]` —
 a new array for a list, a view for an array (`align_to` passes `other.ids(axis)`) -/
 def Op.sortOrder (r : Nat) (ax : Axis) (order : IdSrc) (F : List (Content γ) → Content γ) : Op γ :=
   match ax with
-  | .samp => .new [r] F (.ofTable r .obs) order []
-  | .obs => .new [r] F order (.ofTable r .samp) []
+  | .samp => .new [] [r] F (.ofTable r .obs) order []
+  | .obs => .new [] [r] F order (.ofTable r .samp) []
 def Op.sort (r : Nat) (ax : Axis) (F : List (Content γ) → Content γ) : Op γ := Op.sortOrder r ax .fresh F
 /-- `head`: `self.filter(rows, 'observation', inplace=False)` then `.filter(cols, 'sample')` -/
 def Op.head (r : Nat) (f1 f2 : Body γ) : Op γ := .copyThen r [f1, f2]
 /-- `subsample`: `self.copy()`, kernel on `_get_sparse_data(axis)`, filter on the axis, filter on the other -/
 def Op.subsample (r : Nat) (bodies : List (Body γ)) : Op γ := .copyThen r bodies
-/-- one yielded table of `partition`; `collapse` builds its result the same way -/
-def Op.partition (r : Nat) (ax : Axis) (F : List (Content γ) → Content γ) (post : List (Body γ)) : Op γ :=
+/-- one yielded table of `partition` (which walks the receiver with `iter(axis)`, hence the
+re-layout of the receiver); `collapse` builds its result the same way -/
+def Op.partition (r : Nat) (ax : Axis) (pre : List (Nat × Axis)) (F : List (Content γ) → Content γ)
+    (post : List (Body γ)) : Op γ :=
   match ax with
-  | .samp => .new [r] F (.ofTable r .obs) .fresh post
-  | .obs => .new [r] F .fresh (.ofTable r .samp) post
-def Op.collapse (r : Nat) (ax : Axis) (F : List (Content γ) → Content γ) : Op γ := Op.partition r ax F []
-/-- `merge`, `concat`: every constructor argument is newly built -/
-def Op.combine (r : Nat) (others : List Nat) (F : List (Content γ) → Content γ) : Op γ :=
-  .new (r :: others) F .fresh .fresh []
+  | .samp => .new pre [r] F (.ofTable r .obs) .fresh post
+  | .obs => .new pre [r] F .fresh (.ofTable r .samp) post
+def Op.collapse (r : Nat) (ax : Axis) (pre : List (Nat × Axis)) (F : List (Content γ) → Content γ) : Op γ :=
+  Op.partition r ax pre F []
+/-- `merge`, `concat`: every constructor argument is newly built (the general path of `merge` reads
+both operands row by row with `data(id, 'observation')`) -/
+def Op.combine (r : Nat) (others : List Nat) (pre : List (Nat × Axis)) (F : List (Content γ) → Content γ) : Op γ :=
+  .new pre (r :: others) F .fresh .fresh []
 /-- `align_to`: a chain of `sort_order(other.ids(axis), axis)`; only the last table is returned -/
 def Op.alignTo (r o : Nat) (alignObs alignSamp : Bool) (F : List (Content γ) → Content γ) : Op γ :=
-  .new [r, o] F (.ofTable (if alignObs then o else r) .obs) (.ofTable (if alignSamp then o else r) .samp) []
+  .new [] [r, o] F (.ofTable (if alignObs then o else r) .obs) (.ofTable (if alignSamp then o else r) .samp) []
 
 /-! ### The property, on observations only -/
 
@@ -517,10 +547,12 @@ structure CallJ where
   resultContents : List (Content G)
   ref : Option (Content G)
   after : List (Content G)
-  extIds : List (List Id)
-  extOther : List (List String)
+  ext : List (List String)     -- everything the caller holds, in creation order
+  extIdIdx : List Nat          -- which of them are ID arrays
   facts : Json
   poke : Nat
+
+def CallJ.extIds (c : CallJ) : List (List Id) := c.extIdIdx.map (fun i => c.ext[i]?.getD [])
 
 def asCallJ (j : Json) : R CallJ := do
   pure { name := (← strF j "name"), args := (optFld j "args").getD Json.null,
@@ -528,7 +560,7 @@ def asCallJ (j : Json) : R CallJ := do
          recv := (← natFD j "recv" 0), results := (← listF asNat j "results"),
          resultContents := (← listF asContent j "result_contents"),
          ref := (← optF asContent j "ref"), after := (← listF asContent j "after"),
-         extIds := (← listF (asList asStr) j "ext_ids"), extOther := (← listF (asList asStr) j "ext_other"),
+         ext := (← listF (asList asStr) j "ext"), extIdIdx := (← listF asNat j "ext_id_idx"),
          facts := (← fld j "facts"), poke := (← natFD j "poke" 0) }
 
 def filterBody (cur : Content G) (ax : Axis) (newIds : List Id) (gOverride : Option G) : Body G :=
@@ -586,7 +618,7 @@ def mkOps (h : Heap G) (ext : List Nat) (c : CallJ) : R (List (Op G)) := do
   | "ext_ids" => pure [.extIds (← listF asStr a "ids")]
   | "construct" =>
     let r ← res0
-    pure [.new [] (fun _ => r) (← asIdSrc ext (← fld a "obs_src")) (← asIdSrc ext (← fld a "samp_src")) []]
+    pure [.new [] [] (fun _ => r) (← asIdSrc ext (← fld a "obs_src")) (← asIdSrc ext (← fld a "samp_src")) []]
   | "copy" => pure [Op.copy c.recv]
   | "transpose" => let r ← res0; pure [Op.transpose c.recv (fun _ => r)]
   | "sort" => let r ← res0; pure [Op.sort c.recv (← axisF a "axis") (fun _ => r)]
@@ -607,11 +639,30 @@ def mkOps (h : Heap G) (ext : List Nat) (c : CallJ) : R (List (Op G)) := do
   | "partition" =>
     let ax ← axisF a "axis"
     let re ← boolF a "remove_empty"
+    let cu ← cur
+    -- `iter(axis)` walks the receiver with `_get_col` / `_get_row` (when there is anything to walk)
+    let pre := if (cu.ids ax).isEmpty then [] else [(c.recv, ax)]
     pure (c.resultContents.map (fun r =>
-      Op.partition c.recv ax (fun _ => r)
+      Op.partition c.recv ax pre (fun _ => r)
         (if re then [filterBody r .samp r.samp none, filterBody r .obs r.obs none] else [])))
-  | "collapse" => let r ← res0; pure [Op.collapse c.recv (← axisF a "axis") (fun _ => r)]
-  | "merge" | "concat" => let r ← res0; pure [Op.combine c.recv (← listF asNat a "others") (fun _ => r)]
+  | "collapse" =>
+    let r ← res0
+    let cu ← cur
+    let ax ← axisF a "axis"
+    pure [Op.collapse c.recv ax (if (cu.ids ax).isEmpty then [] else [(c.recv, ax)]) (fun _ => r)]
+  | "concat" => let r ← res0; pure [Op.combine c.recv (← listF asNat a "others") [] (fun _ => r)]
+  | "merge" =>
+    let r ← res0
+    let others ← listF asNat a "others"
+    let all := c.recv :: others
+    let conts := all.filterMap (fun i => (h.abs i).map (fun x => (i, x)))
+    -- fast path (pandas-free COO aggregation): union/union and no operand carries metadata
+    let noMd := conts.all (fun p => p.2.omd.isNone && p.2.smd.isNone)
+    let fast := noMd && (← boolF a "union_union")
+    -- general path: `data(obs_id, 'observation')` on every operand that has the observation
+    let pre := if fast then [] else
+      (conts.filter (fun p => p.2.obs.any (r.obs.contains ·))).map (fun p => (p.1, Axis.obs))
+    pure [Op.combine c.recv others pre (fun _ => r)]
   | "align_to" =>
     let r ← res0
     let cu ← cur
@@ -714,11 +765,18 @@ structure RunState where
   diff : Option String
   modelHolds : Bool
 
-def extAll (c : CallJ) : List (List Id) := c.extIds ++ c.extOther
+def extAll (c : CallJ) : List (List Id) := c.ext
+
+/-- after a call that raised, the model adopts the layouts the tables were left in (a read accessor
+may have cached a conversion before the exception); nothing else is taken from the observation -/
+def resync (h : Heap G) (fmts : List String) : Heap G :=
+  (h.objs.zip fmts).zipIdx.foldl (fun hh (p, i) =>
+    if p.1.fmt.name == p.2 then hh else hh.relayout i (if p.2 == "csc" then Axis.samp else Axis.obs)) h
 
 def stepCall (calls : Array CallJ) (st : RunState) (c : CallJ) : R RunState := do
   let ops ← mkOps st.h st.ext c
   let h1 := runOps st.h ops
+  let h1 ← if c.raised then do pure (resync h1 (← listF asStr c.facts "fmt")) else pure h1
   let ext1 := if c.name == "ext_ids" && !c.raised then st.ext ++ [st.h.ids.length] else st.ext
   let n := st.prevAfter.length
   let later := calls[st.k + c.poke]?
